@@ -87,6 +87,13 @@ CHECKS = {
   "discharged through findFileMarker's contract (loop invariant: no marker before the scan position).",
   "assumed: extern contracts for bytes.* and strings.TrimSpace; Quote/Unquote clauses are not yet under contract and are not claimed by this check",
   "contract-based deductive verification: VCs over go/ssa with a loop invariant, discharged by z3/cvc5; counterexamples replayed with go test -overlay"),
+ "C01": ("5 C01",
+  "Verdict logic under contract: run executes a line only while no line has failed unless ContinueOnError and never after stop; a failing line without ContinueOnError reaches FailNow; run returns normally only if no line failed (a failure with ContinueOnError still ends in FailNow: no false pass); "
+  "PASS is logged only for a run that neither failed nor stopped; Fatalf's FAIL line carries the script's file name and current line number; runLine never dispatches an unknown command and indexes its argument list safely for every line; "
+  "catchFailNow runs its callback only for the failNow panic value; demands of exists (every listed file exists, or with ! does not) and of stdout/stderr/grep (match, or with ! no match; with -count=N exactly N matches) hold on every normal return.",
+  "assumed: only non-panicking executions are modelled (a Fatalf call ends its path, recover() is nil), so runLine's boolean result and callBuiltinCmd's panic filtering are trusted, as are setup, waitBackground, condition, cmdEnv and the logging closures; "
+  "T.FailNow / T.Fatal do not return; regexp semantics are uninterpreted (matchP / countP). NOT decided: the demands of the other commands (cd chmod cmp cp env exec kill mkdir mv rm skip stop stdin symlink unquote unix2dos wait), [cond] guard evaluation and the ! prefix (reassigned locals), background-command status, and the standalone testscript command's exit status",
+  "contract-based deductive verification: loop invariant over the script loop, call-site obligations and per-command postconditions over go/ssa; z3/cvc5"),
  "C02": ("5 C02",
   "Contracts on the tokenizer parse (every line[i], line[i+1], line[start:i] in bounds for every line; the scan terminates; every call of expand happens outside quotes, i.e. quoted text is never expanded), "
   "on the expansion closure (${NAME@R} is regexp.QuoteMeta of NAME's value, any other key its value), on Getenv/Setenv (Setenv appends key=value to the child environment list and sets the same value in the lookup map), "
